@@ -4033,5 +4033,9 @@ fn exact_div<N>(n: N, rhs: N) -> Option<N>
 where
     N: std::ops::Div<Output = N> + std::ops::Rem<Output = N> + std::cmp::PartialEq + Copy + Default,
 {
+    if rhs == N::default() {
+        // nothing divides evenly by 0
+        return None;
+    }
     (n % rhs == N::default()).then_some(n / rhs)
 }
